@@ -22,7 +22,7 @@
 (* Deliberate deviations of the code are modelled, not idealised; they are *)
 (* marked DEVIATION below.                                                 *)
 (***************************************************************************)
-EXTENDS Integers, Sequences, FiniteSets, SequencesExt, TLC
+EXTENDS Integers, Sequences, FiniteSets, SequencesExt, TLC, Json
 
 CONSTANTS
     NP,         \* number of step objects handed to the controller
@@ -36,6 +36,7 @@ CONSTANTS
     CRASH,      \* BasicRestarting.crash_after_max_restarts
     RFF,        \* BasicRestarting.restart_from_first_step
     OW,         \* SpreadStepSizesBlockwise.overwrite_to_reach_Tend
+    HIST,       \* record the oracle history (behaviour generation) or not (model checking)
     ENDDEP,     \* TRUE iff the end value is u0 + dt*sum(w f) (do_coll_update / right end not a node), i.e. depends on u[0]
     T0, TEND,   \* ticks
     DT0,        \* level_params.dt in ticks (= dt_initial)
@@ -137,7 +138,8 @@ Residual0(s, p) == IF s.err # "none" THEN s ELSE [s EXCEPT !.resv[p] = FullVer(s
 EndPoint(s, p, l) == [s EXCEPT !.uev[p][l] = EndVer(s, p, l)]
 
 \* restrict l -> l+1 writes the coarse level; prolong l -> l-1 writes the fine level
-RestrictTo(s, p, l) == IF s.err # "none" THEN s ELSE [s EXCEPT !.uv[p][l + 1] = @ + 1, !.zv[p][l + 1] = @ + 1]
+RestrictTo(s, p, l) == IF s.err # "none" THEN s
+                       ELSE [s EXCEPT !.uv[p][l + 1] = @ + 1, !.zv[p][l + 1] = @ + 1, !.src[p][l + 1] = <<-2, NoEnd>>]
 ProlongTo(s, p, l)  == IF s.err # "none" THEN s ELSE Bump(s, p, l - 1)
 
 SetStage(s, R, name) == [s EXCEPT !.stage = [p \in Slots |-> IF p \in R THEN name ELSE s.stage[p]]]
@@ -496,7 +498,7 @@ StageStepWith(orc) ==
     IN /\ st' = nx
        /\ phase' = IF nx.err = "none" THEN "run" ELSE nx.err
        /\ stats' = IF sg = "IT_CHECK" /\ nx.err = "none" THEN StatsAfterCheck(stats, st, nx) ELSE stats
-       /\ hist' = IF sg = "IT_CHECK" THEN Append(hist, orc) ELSE hist
+       /\ hist' = IF HIST /\ sg = "IT_CHECK" THEN Append(hist, orc) ELSE hist
        /\ UNCHANGED <<nact, time, dt, carry, acc, rej, nblk>>
 
 \* one call of controller.pfasst()
@@ -546,6 +548,17 @@ Done == Terminal /\ UNCHANGED vars
 Next == RunStart \/ StageStep \/ BlockEnd \/ Done
 
 Spec == Init /\ [][Next]_vars
+
+\* behaviour generation (GEN): no stuttering at terminal states; the oracle history is printed there
+NextGen == RunStart \/ StageStep \/ BlockEnd
+GenSpec == Init /\ [][NextGen]_vars
+\* the consumed oracle records in consumption order: per IT_CHECK pass, running slots ascending
+HistSeq ==
+    LET one(q, h) == q \o [i \in 1 .. Cardinality(DOMAIN h) |->
+                            LET p == Asc(DOMAIN h)[i] IN
+                            [s |-> p, res |-> h[p].res, rs |-> h[p].rs, dtn |-> h[p].dtn, fd |-> h[p].fd, fc |-> h[p].fc]]
+    IN FoldLeft(one, <<>>, hist)
+GenPrint == Terminal => PrintT(ToJson([gen |-> TRUE, ph |-> phase, nacc |-> Len(acc), nrej |-> Len(rej), script |-> HistSeq]))
 
 FairSpec == Spec /\ WF_vars(RunStart \/ StageStep \/ BlockEnd)
 
